@@ -19,6 +19,9 @@ def gen_graph(rng, small=False):
     nn = rng.randint(2, 5 if small else 12)
     ne = rng.randint(1, 6 if small else 40)
     W = rng.choice([[0, 0, 1, 2, 3, 5, 8], [1, 1, 2], [0, 1], [0.5, 1.5, 2, 0.25, 0]])
+    if rng.random() < 0.15:                         # the same weights in a very large or very small unit (exact in binary): the routes do not depend on the unit
+        sc = rng.choice([2.0 ** -40, 2.0 ** -34, 2.0 ** 20])
+        W = [w * sc for w in W]
     return [[k, rng.randrange(nn), rng.randrange(nn), rng.choice([-1, 0, 0, 1]), rng.choice(W)] for k in range(ne)]
 
 
@@ -81,12 +84,33 @@ def gen_dist(rng, n, tier):
     for k in range(n):
         g = gen_graph(rng, small=(k % 3 == 0))
         used = sorted({e[1] for e in g} | {e[2] for e in g})
-        cases.append({'edges': g, 'src': rng.choice(used), 'shared': rng.random() < 0.3})
+        cases.append({'edges': g, 'src': rng.choice(used), 'shared': rng.random() < 0.3, 'pre': rand_pre(rng)})
     return cases
+
+
+def use_subnet(net, case):
+    """other public operations that run the same search on the same network first: a sub-network extracted around a node and routed in,
+    a table of all distances; the network itself must answer afterwards as if they had not happened"""
+    pre = case.get('pre')
+    if not pre:
+        return
+    nodes = sorted(net.NODES)
+    if pre[0] == 'sub':
+        sub = net.sub_network(nodes[pre[1] % len(nodes)], pre[2], verbose=False)
+        sn = sorted(sub.NODES)
+        if len(sn) >= 2:
+            sub.shortest_distance(sn[0], sn[-1]); sub.shortest_path(sn[-1], sn[0])
+    else:
+        net.all_shortest_distances(cut=pre[2])
+
+
+def rand_pre(rng):
+    return rng.choice([None, None, None, ['sub', rng.randrange(12), rng.choice([1, 3, 8, 1e300])], ['all', 0, rng.choice([2, 8, 1e300])]])
 
 
 def run_dist(case):
     net = build_net(case['edges'])
+    use_subnet(net, case)
     res = {}
     reg = {} if case.get('shared') else None      # the optional output dictionary, reused across successive calls as the API allows
     for t in sorted(net.NODES):
@@ -161,12 +185,13 @@ def gen_table(rng, n, tier):
     for k in range(n):
         g = gen_graph(rng, small=(k % 2 == 0))
         cut = rng.choice([0, 1, 2, 3, 5, 8, 13, 0.5, 2.5, 1e300])
-        cases.append({'edges': g, 'cut': cut})
+        cases.append({'edges': g, 'cut': cut, 'pre': rand_pre(rng)})
     return cases
 
 
 def run_table(case):
     net = build_net(case['edges'])
+    use_subnet(net, case)
     d = net.all_shortest_distances(cut=case['cut'])
     net.DISTANCES = d
     nodes = sorted(net.NODES)
